@@ -122,12 +122,25 @@ structure Walk where
   cellV : List Id
 deriving Repr, Inhabited
 
-/-- body of the loop `for v in range(0, len(new_edge_vertices) - 1)` -/
-def stepEdge (w : Walk) (v01 : Pt × Pt) : Walk :=
+/-- body of the loop `for v in range(0, len(new_edge_vertices) - 1)` as on the pinned upstream tree: no test
+    for a ridge whose two ends intern to the same vertex — it stored the mesh edge `[n, n]` (finding D21,
+    kept only for the witness `stepEdgeUpstream_self_edge_witness`) -/
+def stepEdgeUpstream (w : Walk) (v01 : Pt × Pt) : Walk :=
   let r1 := getVertexNumber v01.1 w.vs
   let r2 := getVertexNumber v01.2 r1.2
   let re := getEnum (r1.1, r2.1) w.es
   { vs := r2.2, es := re.2, cellE := w.cellE ++ [re.1], cellV := w.cellV ++ [r1.1, r2.1] }
+
+/-- body of the loop `for v in range(0, len(new_edge_vertices) - 1)`:
+    `if vertex_number_1 == vertex_number_2: continue` (both ends of the ridge round to the same point: the
+    vertices are interned, no mesh edge), otherwise `get_enum` and the three appends -/
+def stepEdge (w : Walk) (v01 : Pt × Pt) : Walk :=
+  let r1 := getVertexNumber v01.1 w.vs
+  let r2 := getVertexNumber v01.2 r1.2
+  if r1.1 = r2.1 then { w with vs := r2.2 }
+  else
+    let re := getEnum (r1.1, r2.1) w.es
+    { vs := r2.2, es := re.2, cellE := w.cellE ++ [re.1], cellV := w.cellV ++ [r1.1, r2.1] }
 
 /-- consecutive pairs of a list (open) -/
 def openPairs {α : Type} : List α → List (α × α)
